@@ -11,7 +11,7 @@ import (
 
 func init() {
 	register(&core.Rule{ID: "S8b", Min: 3,
-		Doc: "Pairs are constructed with their hash: every composite literal of ast.Pair that carries a key is inside NewPair (which fills the unexported hash the key index trusts); elsewhere only the empty Pair{} / the error pair with an empty key may be written.",
+		Doc: "Pairs are constructed with their hash: every composite literal of ast.Pair that carries a key is inside NewPair (which fills the unexported hash the key index trusts); elsewhere only the empty Pair{} / the error pair with an empty key may be written; the Key field of an existing Pair is never assigned in package ast (key and hash are set together by NewPair).",
 		Run: runS8b})
 	register(&core.Rule{ID: "T2", Min: 3,
 		Doc: "Node type dispatch strips both state flags: wherever ast code masks Node.t with _MASK_RAW or _MASK_LAZY the same expression applies both masks (as itype()/Type() do); masking only one of them classifies partially parsed (lazy) or raw nodes as neither array nor object.",
@@ -85,6 +85,39 @@ func runS8b(c *core.Ctx) {
 			}
 			return true
 		})
+	}
+	// the key of an existing Pair is never re-assigned (hash and Key are set together)
+	nk := 0
+	for _, fd := range core.FuncDecls(pk) {
+		if fd.Body == nil || strings.HasSuffix(p.Fset.Position(fd.Pos()).Filename, "_test.go") {
+			continue
+		}
+		fn := core.FuncName(pk, fd)
+		ast.Inspect(fd.Body, func(nd ast.Node) bool {
+			as, ok := nd.(*ast.AssignStmt)
+			if !ok {
+				return true
+			}
+			for _, l := range as.Lhs {
+				se, ok := ast.Unparen(l).(*ast.SelectorExpr)
+				if !ok || se.Sel.Name != "Key" {
+					continue
+				}
+				t := p.TypeOf(se.X)
+				if pt, ok := t.(*types.Pointer); ok {
+					t = pt.Elem()
+				}
+				if nt, ok := t.(*types.Named); !ok || nt.Obj() != pairObj {
+					continue
+				}
+				nk++
+				c.Bad(fn+"/Pair.Key-assigned#"+itoa(nk), as.Pos(), "%s assigns %s after the Pair was built: Pair.hash still is the hash of the old key text (for example the still-escaped key), so the key index of objects with more than 16 pairs misses this key", fn, exprStr(l))
+			}
+			return true
+		})
+	}
+	if nk == 0 {
+		c.OK("ast/Pair.Key-never-reassigned", pairObj.Pos(), "no assignment to the Key field of an existing Pair in package ast")
 	}
 	if n < 3 {
 		c.Undecided("ast/Pair-literals", token.NoPos, "only %d Pair literals found", n)
